@@ -17,3 +17,23 @@ func DumpOptDerefs(p *core.Prog, pkgs []string) {
 		fmt.Printf("%s %s %s %s %s\n", st, core.FuncName(d.Fn), d.Field, c.Pos(d.In), d.Why)
 	}
 }
+
+// DumpExplore: exploratory run of the generic round-4 rules over other packages (maintenance aid).
+func DumpExplore(p *core.Prog) {
+	for _, pk := range []string{"dv/dv", "dv/table", "std/sync", "std/engine/basic", "fw/mgmt", "std/security", "std/schema", "std/schema/rdr", "std/schema/svs", "tools/dvc", "tools/nfdc"} {
+		c := core.NewCtx(p, "x", "quick")
+		c15Aliasing(c, core.ModPath+"/"+pk)
+		for _, o := range c.Obls {
+			if o.Status != core.OK {
+				fmt.Println("ALIAS", pk, o.Key, o.Pos, o.Detail[:min(len(o.Detail), 260)])
+			}
+		}
+	}
+	for _, set := range [][]string{{"std/engine/basic", "std/object", "std/sync"}, {"std/schema", "std/schema/rdr", "std/schema/svs", "std/engine/basic"}} {
+		edges := core.LockOrder(p, set)
+		fmt.Println("LOCKORDER", set, len(edges), "edges")
+		for _, cy := range core.LockCycles(edges) {
+			fmt.Println("  CYCLE", cy[0].From, "->", cy[0].To, "at", p.Pos(cy[0].At.Pos()), "via", cy[0].Via, "| back at", p.Pos(cy[1].At.Pos()), "via", cy[1].Via)
+		}
+	}
+}
